@@ -1,6 +1,6 @@
 SPECIFICATION TraceSpec
 CONSTANTS
-  Banks = {1, 2, 3}
+  Banks = {1, 2, 3, 33}
   LoAddrs = {512}
   HiAddrs = {16384, 16400}
   Capacity = 100000
